@@ -159,6 +159,11 @@ pub fn gen_scene(r: &mut Rng, q: &Joints) -> SceneSpec {
             // a key naming joint 6 says nothing about the tool mounted on it
             if b as usize == J_TOOL && (a as usize) < 4 && r.chance(0.6) && !has(&safety, a, 5) { safety.special_distances.insert((a, 5), NEVER_COLLIDES); }
             if a as usize == J_TOOL && (b as usize) < 4 && r.chance(0.6) && !has(&safety, b, 5) { safety.special_distances.insert((b, 5), NEVER_COLLIDES); }
+            // the exemption of the tool against the FIRST environment object says nothing about the other objects
+            let (lo, hi) = (a.min(b) as usize, a.max(b) as usize);
+            if lo == J_TOOL && hi > ENV_START_IDX && r.chance(0.6) && !has(&safety, J_TOOL as u16, ENV_START_IDX as u16) {
+                safety.special_distances.insert((J_TOOL as u16, ENV_START_IDX as u16), NEVER_COLLIDES);
+            }
             if r.chance(0.5) && !has(&safety, a, b) {
                 if r.chance(0.5) { safety.special_distances.insert((a, b), NEVER_COLLIDES); } else { safety.special_distances.insert((b, a), NEVER_COLLIDES); }
             }
@@ -282,6 +287,12 @@ pub fn c14(seed: u64, n: usize) {
             sc.body.joint_meshes[k] = box_mesh([0.15, 0.15, 0.2], [0.0, 0.0, 0.05], false);
             sc.fam.push_str("/rod+bracket");
         }
+        // a parallelogram on top now and then: replacing the driven joint also moves the coupled link
+        if r.chance(0.2) {
+            let d = 1 + r.below(5); let c = r.below(d);
+            sc.ks.stack.push(Wrap::P(*r.pick(&[1.0, -1.0, 0.5]), d, c));
+            sc.fam.push_str("/para-coupled-before-driven");
+        }
         // limits on the robot now and then
         if r.chance(0.4) {
             let mut f = [0.0; 6]; let mut t = [0.0; 6];
@@ -307,9 +318,13 @@ pub fn c14(seed: u64, n: usize) {
         let mut cands = vec![];
         for k in 0..6 { for tgt in [&from, &to] { let mut c = q; c[k] = tgt[k]; cands.push(c); } }
         l.n(cands.len());
+        let initial_links = kin.forward_with_joint_poses(&q);
         for c in &cands {
             let compliant = kin.constraints().as_ref().map_or(true, |cc| cc.compliant(c));
             l.j6(c).b(compliant).b(sc.body.collides(c, kin.as_ref()));
+            // which links keep the pose they have at the initial vector
+            let lp = kin.forward_with_joint_poses(c);
+            for i in 0..6 { l.b(lp[i] == initial_links[i]); }
             enc_table(&mut l, &sc.body, kin.as_ref(), c, &sc.body.safety);
         }
         l.n(pool).arrow();
@@ -369,32 +384,7 @@ pub fn gen_kws(r: &mut Rng, q: &Joints, force_cons: Option<([f64; 6], [f64; 6], 
 
 pub fn c11(seed: u64, n: usize) {
     let mut r = Rng::new(seed ^ 0xC11);
-    for i in 0..n {
-        let q = rand_joints(&mut r, 2.0);
-        let k = gen_kws(&mut r, &q, None);
-        let inner = k.kws.kinematics.clone();
-        let pose = k.kws.forward(&q);
-        let prev = if r.chance(0.5) { q } else { rand_joints(&mut r, PI) };
-        let j6 = q[5];
-        for entry in 0..4usize {
-            let call = |kk: &dyn Kinematics| match entry {
-                0 => kk.inverse(&pose), 1 => kk.inverse_continuing(&pose, &prev), 2 => kk.inverse_5dof(&pose, j6), _ => kk.inverse_continuing_5dof(&pose, &prev) };
-            let mut l = Line::new("C11", &k.fam, "kws");
-            k.ks.encode(&mut l);
-            l.n(entry).iso(&pose).j6(&prev).f(j6).arrow();
-            match catch(AssertUnwindSafe(|| {
-                let a = call(inner.as_ref());
-                let v: Vec<bool> = a.iter().map(|s| k.kws.collides(s)).collect();
-                let o = call(&k.kws);
-                (a, v, o)
-            })) {
-                Some((a, v, o)) => { l.sols(&a); l.n(v.len()); for b in v { l.b(b); } l.sols(&o); }
-                None => { l.s("panic"); }
-            }
-            l.emit();
-        }
-        if i % 2 == 0 { emit_kwsd("C11", &k, &q); }
-    }
+    kws_cases("C11", &mut r, n, &[0, 1, 2, 3], true);
     // "not reported colliding" rests on the verdicts of the same robot body: scenes with the brute-force oracle table
     coll_cases("C11", &mut r, (n / 4).max(20));
 }
@@ -425,5 +415,41 @@ pub fn kwsd_cases(prop: &str, r: &mut Rng, n: usize) {
         let q = rand_joints(r, 2.0);
         let k = gen_kws(r, &q, None);
         emit_kwsd(prop, &k, &q);
+    }
+}
+
+/// robots with shape: each chosen entry point with the inner stack's answers, the robot's verdict per answer and the
+/// wrapper's answers (op `kws`); optionally the delegation line (op `kwsd`)
+pub fn kws_cases(prop: &str, r: &mut Rng, n: usize, entries: &[usize], with_kwsd: bool) {
+    for i in 0..n {
+        let q = rand_joints(r, 2.0);
+        let k = gen_kws(r, &q, None);
+        let inner = k.kws.kinematics.clone();
+        let pose = k.kws.forward(&q);
+        let mut prev = if r.chance(0.5) { q } else { rand_joints(r, PI) };
+        // previous taken bit for bit from the answers of the inner stack, preferably one the robot reports colliding
+        if r.chance(0.35) {
+            let answers = inner.inverse_continuing(&pose, &prev);
+            if let Some(s) = answers.iter().find(|s| k.kws.collides(s)).or(answers.first()) { prev = *s; }
+        }
+        let j6 = q[5];
+        for &entry in entries {
+            let call = |kk: &dyn Kinematics| match entry {
+                0 => kk.inverse(&pose), 1 => kk.inverse_continuing(&pose, &prev), 2 => kk.inverse_5dof(&pose, j6), _ => kk.inverse_continuing_5dof(&pose, &prev) };
+            let mut l = Line::new(prop, &k.fam, "kws");
+            k.ks.encode(&mut l);
+            l.n(entry).iso(&pose).j6(&prev).f(j6).arrow();
+            match catch(AssertUnwindSafe(|| {
+                let a = call(inner.as_ref());
+                let v: Vec<bool> = a.iter().map(|s| k.kws.collides(s)).collect();
+                let o = call(&k.kws);
+                (a, v, o)
+            })) {
+                Some((a, v, o)) => { l.sols(&a); l.n(v.len()); for b in v { l.b(b); } l.sols(&o); }
+                None => { l.s("panic"); }
+            }
+            l.emit();
+        }
+        if with_kwsd && i % 2 == 0 { emit_kwsd(prop, &k, &q); }
     }
 }
